@@ -20,43 +20,44 @@ VARIABLES l,        \* next event
           incall,   \* operation in progress ("" = none)
           outb,     \* outstanding buffers: set of <<id, tag>>
           tkind,    \* font kind of the current history
+          tnr,      \* 1: the face of this history is made without a release_table callback (nothing can be handed back)
           seen      \* results observed so far: function from call keys to result hashes (purity oracle)
-tvars == <<vars, l, incall, outb, tkind, seen>>
+tvars == <<vars, l, incall, outb, tkind, tnr, seen>>
 
 Ev == Log[l]
 IsEvent(e) == l <= Len(Log) /\ Ev.e = e /\ l' = l + 1
 
-TInit == Init /\ l = 1 /\ incall = "" /\ outb = {} /\ tkind = "good" /\ seen = << >>
+TInit == Init /\ l = 1 /\ incall = "" /\ outb = {} /\ tkind = "good" /\ tnr = 0 /\ seen = << >>
 
 \* a new history: the previous one must have given everything back
 TReset ==
   /\ IsEvent("Reset") /\ incall = "" /\ outb = {} /\ phase \in {"none", "dead"}
   /\ phase' = "none" /\ opts' = 0 /\ kind' = "good" /\ src' = "ops" /\ held' = {} /\ nameDone' = FALSE
   /\ nfonts' = 0 /\ nsegs' = 0 /\ nfvals' = 0 /\ afterMake' = 0 /\ hist' = << >>
-  /\ tkind' = Ev.kind /\ UNCHANGED <<incall, outb, seen>>
+  /\ tkind' = Ev.kind /\ tnr' = Ev.nr /\ UNCHANGED <<incall, outb, seen>>
 
 TCall == /\ IsEvent("Call") /\ incall = "" /\ incall' = Ev.op
-         /\ UNCHANGED <<vars, outb, tkind, seen>>
+         /\ UNCHANGED <<vars, outb, tkind, tnr, seen>>
 
 \* get_table: during gr_make_face; afterwards only for the name table, once, and never with gr_face_preloadAll
 GetAllowed == \/ incall = "make_face"
               \/ incall = "label" /\ ~nameDone /\ Ev.tag = "name" /\ ~PreloadAll(opts)
 TGet == /\ IsEvent("Get") /\ incall # "" /\ GetAllowed
-        /\ outb' = IF Ev.buf >= 0 THEN outb \cup {<<Ev.buf, Ev.tag>>} ELSE outb
+        /\ outb' = IF Ev.buf >= 0 /\ tnr = 0 THEN outb \cup {<<Ev.buf, Ev.tag>>} ELSE outb
         /\ \A b \in outb : b[1] # Ev.buf                                   \* fresh id
-        /\ UNCHANGED <<vars, incall, tkind, seen>>
+        /\ UNCHANGED <<vars, incall, tkind, tnr, seen>>
 
 \* release_table: exactly once per buffer
-TRel == /\ IsEvent("Rel") /\ incall # ""
+TRel == /\ IsEvent("Rel") /\ incall # "" /\ tnr = 0
         /\ \E b \in outb : b[1] = Ev.buf /\ outb' = outb \ {b}
-        /\ UNCHANGED <<vars, incall, tkind, seen>>
+        /\ UNCHANGED <<vars, incall, tkind, tnr, seen>>
 
 Tags(S) == {b[2] : b \in S}
 
 \* the call returns: its net effect is the FaceLife action of that operation
 TRet ==
   /\ IsEvent("Ret") /\ incall = Ev.op
-  /\ CASE Ev.op = "make_face"    -> MakeFace(Ev.arg % 8, tkind, IF Ev.arg >= 8 THEN "file" ELSE "ops") /\ (phase' = "live") = (Ev.ok = 1)
+  /\ CASE Ev.op = "make_face"    -> MakeFace(Ev.arg % 8, tkind, IF Ev.arg >= 16 THEN "opsnr" ELSE IF Ev.arg >= 8 THEN "file" ELSE "ops") /\ (phase' = "live") = (Ev.ok = 1)
        [] Ev.op = "label"        -> LabelQuery
        [] Ev.op = "face_query"   -> FaceQuery
        [] Ev.op = "featval"      -> FeatVal
@@ -77,11 +78,11 @@ TRet ==
      ELSE LET key == <<tkind, Ev.op, Ev.key, IF KeyByOpts THEN opts' ELSE -1, IF KeyByOpts THEN src' ELSE "">> IN
           IF key \in DOMAIN seen THEN seen[key] = Ev.h /\ UNCHANGED seen
           ELSE seen' = [k \in DOMAIN seen \cup {key} |-> IF k = key THEN Ev.h ELSE seen[k]]
-  /\ incall' = "" /\ UNCHANGED <<outb, tkind>>
+  /\ incall' = "" /\ UNCHANGED <<outb, tkind, tnr>>
 
 \* end of a history: no library allocation is left
 TQuiesce == /\ IsEvent("Quiesce") /\ incall = "" /\ outb = {} /\ Ev.live = 0
-            /\ UNCHANGED <<vars, incall, outb, tkind, seen>>
+            /\ UNCHANGED <<vars, incall, outb, tkind, tnr, seen>>
 
 TNext == TReset \/ TCall \/ TGet \/ TRel \/ TRet \/ TQuiesce
 TSpec == TInit /\ [][TNext]_tvars
